@@ -2,6 +2,7 @@ package ir
 
 import (
 	"fmt"
+	"os"
 	"go/token"
 	"go/types"
 	"sort"
@@ -277,11 +278,11 @@ type State struct {
 	fresh  map[string]bool // alloc keys created on this path
 	// dyn: the concrete type a term was given when it was converted to an interface (shared by all clones: a fact
 	// about the term, not about the path). Lets an invocation on a locally built collaborator be resolved.
-	dyn map[string]types.Type
+	dyn map[string][]types.Type
 }
 
 func NewState() *State {
-	return &State{mem: map[string]*memEntry{}, facts: map[string]bool{}, fresh: map[string]bool{}, dyn: map[string]types.Type{}}
+	return &State{mem: map[string]*memEntry{}, facts: map[string]bool{}, fresh: map[string]bool{}, dyn: map[string][]types.Type{}}
 }
 
 func (s *State) Clone() *State {
@@ -382,7 +383,43 @@ func (s *State) DynType(t *Term) types.Type {
 	if s == nil || s.dyn == nil || t == nil {
 		return nil
 	}
-	return s.dyn[t.Key()]
+	ts := s.dyn[t.Key()]
+	if len(ts) != 1 {
+		return nil
+	}
+	return ts[0]
+}
+
+// dynMethod: the method implementing interface method m on the receiver term recv, when the conversions recorded for
+// that term leave exactly one concrete type that has such a method (one term can be converted more than once: a
+// string parameter as a named string type with methods here, as a plain string for a message there).
+func (s *State) dynMethod(prog *ssa.Program, recv *Term, m *types.Func) *ssa.Function {
+	if s == nil || s.dyn == nil || recv == nil {
+		return nil
+	}
+	var found *ssa.Function
+	n := 0
+	for _, t := range s.dyn[recv.Key()] {
+		if prog.MethodSets.MethodSet(t).Lookup(m.Pkg(), m.Name()) == nil {
+			continue
+		}
+		n++
+		found = concreteMethod(prog, t, m)
+	}
+	if n != 1 {
+		return nil
+	}
+	return found
+}
+
+func (s *State) recordDyn(t *Term, typ types.Type) {
+	k := t.Key()
+	for _, o := range s.dyn[k] {
+		if types.Identical(o, typ) {
+			return
+		}
+	}
+	s.dyn[k] = append(s.dyn[k], typ)
 }
 
 // addrParent: faddr/iaddr -> base
@@ -1631,7 +1668,10 @@ func calleeKey(c *ssa.CallCommon) string {
 
 // concreteMethod: the function implementing interface method m for the concrete type t (nil when it cannot be
 // resolved to a function with a body in the program).
-func concreteMethod(prog *ssa.Program, t types.Type, m *types.Func) *ssa.Function {
+func concreteMethod(prog *ssa.Program, t types.Type, m *types.Func) (res *ssa.Function) {
+	if os.Getenv("VERIF_DBG_DEVIRT") != "" {
+		defer func() { fmt.Fprintf(os.Stderr, "devirt %v . %v => %v\n", t, m, res) }()
+	}
 	if prog == nil || t == nil || m == nil {
 		return nil
 	}
@@ -1873,8 +1913,8 @@ func (ex *explorer) doCall(st *State, in ssa.Instruction, c *ssa.CallCommon, val
 	if c.IsInvoke() {
 		// an invocation on a collaborator this very analysis converted to the interface: the method of its
 		// concrete type (a locally built strategy / worker object behind a small internal interface)
-		if t, ok := st.dyn[args[0].Key()]; ok && st.dyn != nil {
-			devirt = concreteMethod(f.fn.Prog, t, c.Method)
+		if st.dyn != nil {
+			devirt = st.dynMethod(f.fn.Prog, args[0], c.Method)
 			if devirt != nil && !ex.canInlineAt(st, resolveBody(devirt), site) {
 				devirt = nil // not followed: the invocation stays the event the rules know
 			}
@@ -2075,7 +2115,7 @@ func (ex *explorer) simple(st *State, in ssa.Instruction) {
 		}
 		if st.dyn != nil && !types.IsInterface(in.X.Type()) && (!x.IsConst() || zeroStruct) {
 			if _, isTP := in.X.Type().(*types.TypeParam); !isTP {
-				st.dyn[x.Key()] = f.ty(in.X.Type())
+				st.recordDyn(x, f.ty(in.X.Type()))
 			}
 		}
 	case *ssa.ChangeType:
@@ -2149,8 +2189,8 @@ func (ex *explorer) fillCall(st *State, s *Step, c *ssa.CallCommon) {
 	}
 	if c.IsInvoke() {
 		// go/defer of a method of a collaborator converted to the interface on this path: its concrete method
-		if t, ok := st.dyn[s.A[0].Key()]; ok && st.dyn != nil {
-			if m := concreteMethod(st.top().fn.Prog, t, c.Method); m != nil {
+		if st.dyn != nil {
+			if m := st.dynMethod(st.top().fn.Prog, s.A[0], c.Method); m != nil {
 				s.Method = nil
 				s.Static = resolveBody(m)
 				s.Callee = &Term{Op: "fn", Fn: s.Static}
